@@ -71,6 +71,16 @@ class FnAnalysis:
                 for n in walk_stmt(scan):
                     if isinstance(n, ast.Call):
                         cells, cands, how = self.eff.call_writes(fn, n)
+                        # a local closure (nested def of this function) called without arguments: its primitive writes
+                        # happen here, with the values it captured from this scope
+                        if how == "local" and cands and not n.args and not n.keywords and all(getattr(c, "parent", None) is fn for c in cands):
+                            for c in cands:
+                                for st2 in c.node.body:
+                                    for cell, mode, n2 in primitive_writes(c, st2):
+                                        val2 = getattr(n2, "value", None)
+                                        vn = list(n2.args) if isinstance(n2, ast.Call) else ([val2] if val2 is not None else [])
+                                        call_events.append(("write", cell, vn, n2, mode == "inplace", []))
+                            continue
                         # a call that only creates a @contextmanager object has no effect by
                         # itself; its effects are modelled at the with-statement
                         if cands and all(c.is_contextmanager() for c in cands):
@@ -101,9 +111,21 @@ class FnAnalysis:
                                 ev.append(("snap", c, t.id, not is_copy_of_cell_read(scan.value), scan))
                 elif isinstance(scan, ast.AugAssign) and isinstance(scan.target, ast.Name):
                     ev.append(("kill", scan.target.id))
+                # snapshot filled element by element:  old[k] = <expr reading cells>  (old is a local container)
+                if isinstance(scan, ast.Assign) and len(scan.targets) == 1 and isinstance(scan.targets[0], ast.Subscript) and isinstance(scan.targets[0].value, ast.Name):
+                    base = scan.targets[0].value.id
+                    if base not in ("self",):
+                        for c in sorted(self.eff.expr_read_cells(fn, scan.value)):
+                            ev.append(("snap", c, base, False, scan))
             if node.kind == "for":
                 for nm in [x for x in ast.walk(a.target) if isinstance(x, ast.Name)]:
                     ev.append(("kill", nm.id))
+                # element-wise snapshot loop:  for k in keys: old[k] = <reader of cell>  - the container `old` is the
+                # snapshot from the loop header on (with no iterations there is nothing to save and nothing to write back)
+                for sub in a.body:
+                    if isinstance(sub, ast.Assign) and len(sub.targets) == 1 and isinstance(sub.targets[0], ast.Subscript) and isinstance(sub.targets[0].value, ast.Name) and sub.targets[0].value.id != "self":
+                        for c in sorted(self.eff.expr_read_cells(fn, sub.value)):
+                            ev.append(("snap", c, sub.targets[0].value.id, False, sub))
                 # element-wise restore loop:  for obj, old in zip(objs, snapshot): obj.cell = old
                 tnames = {x.id for x in ast.walk(a.target) if isinstance(x, ast.Name)}
                 inames = {x.id for x in ast.walk(a.iter) if isinstance(x, ast.Name)}
